@@ -1,7 +1,135 @@
 import XpmVerif.Model.Sched
 import XpmVerif.Generated.SchedFlags
+import XpmVerif.Proofs.SchedFinal
+/-! C06 — "Every job reaches a truthful, stable final state and the experiment exits" (safety part).
+
+    All theorems are about the scheduler model `Model/Sched.lean` (tied to the Python code by the
+    event-by-event check) and hold in EVERY state reachable from `St.init totals` by ANY list of
+    well-formed events (`SchedFinal.Reachable`: any workload, any schedule, any token table, no bound).
+    Each theorem names the repair flags it needs; `scheduler_flags` says the source has all three. -/
 namespace XpmVerif.C06
-open XpmVerif.Sched
+open XpmVerif.Sched XpmVerif.SchedFinal
+
 /-- obligation on the current source: the three scheduler repairs are present. -/
 theorem scheduler_flags : Gen.schedFlags = { readyGuarded := true, resubmitRegisters := true, abortRechecks := true } := by decide
+
+/-- "reaches a … final state": the value `r` a job coroutine returns is DONE or ERROR, and it is the state the
+    job record shows.  Needs `readyGuarded` only. -/
+theorem final_is_done_or_error {fl : Flags} (hg : fl.readyGuarded = true) {totals : List Nat} {s : St}
+    (h : Reachable fl totals s) (j : Nat) (r : JS) (hp : (s.jobs j).pc = .finished r) :
+    (r = .done ∨ r = .error) ∧ (s.jobs j).state = r :=
+  jlocal_final ((reachable_invA hg h).loc j) hp
+
+/-- "stable": once the coroutine of job `j` returned `r`, then after ANY further list of events (well-formed or
+    not) it still shows `finished r` and the record state is still `r`.  Needs `readyGuarded` only. -/
+theorem final_stable {fl : Flags} (hg : fl.readyGuarded = true) {totals : List Nat} {s : St}
+    (h : Reachable fl totals s) (j : Nat) (r : JS) (hp : (s.jobs j).pc = .finished r) (evs : List Ev) :
+    ((evs.foldl (St.apply fl) s).jobs j).pc = .finished r ∧ ((evs.foldl (St.apply fl) s).jobs j).state = r := by
+  have hs := stable_foldl fl hg j r evs s (reachable_invA hg h) hp
+  exact ⟨hs.2, (jlocal_final (hs.1.loc j) hs.2).2⟩
+
+/-- `final_stable` is false without `readyGuarded` (finding F3): job 1 has a success marker and depends on job 0;
+    it returns DONE, and when job 0 finishes its record goes back to READY. -/
+theorem final_unstable_without_readyGuarded :
+    let fl : Flags := { readyGuarded := false, resubmitRegisters := true, abortRechecks := true }
+    let evs : List Ev := [.submit 10 [] 0 false, .submit 11 [.job 0] 0 true, .step, .step, .deliver 1, .step,
+      .deliver 0, .step, .deliver 0, .step, .deliver 0, .step, .deliver 0, .step, .step]
+    (((evs.take 6).foldl (St.apply fl) (St.init [])).jobs 1).pc = .finished .done ∧
+    ((evs.foldl (St.apply fl) (St.init [])).jobs 1).pc = .finished .done ∧
+    ((evs.foldl (St.apply fl) (St.init [])).jobs 1).state = .ready := by decide
+
+/-- "truthful", at most one process: a job is launched at most once.  Needs `readyGuarded`. -/
+theorem launches_le_one {fl : Flags} (hg : fl.readyGuarded = true) {totals : List Nat} {s : St}
+    (h : Reachable fl totals s) (j : Nat) : (s.jobs j).launches ≤ 1 :=
+  ((reachable_invA hg h).loc j).2.2.2.2.1
+
+/-- "truthful", DONE: a job ends DONE iff its success marker existed at submission or its (single) process exited
+    with code 0.  Needs `readyGuarded`. -/
+theorem final_truthful_done {fl : Flags} (hg : fl.readyGuarded = true) {totals : List Nat} {s : St}
+    (h : Reachable fl totals s) (j : Nat) (r : JS) (hp : (s.jobs j).pc = .finished r) :
+    r = .done ↔ ((s.jobs j).marker = true ∨ ((s.jobs j).launches = 1 ∧ (s.jobs j).code = 0)) :=
+  jlocal_done_iff ((reachable_invA hg h).loc j) hp
+
+/-- "truthful", ERROR: a job ends ERROR iff it had no marker and either its process exited with a non-zero code, or
+    it was never launched and a dependency failed (`failedDep`).  Needs `readyGuarded`. -/
+theorem final_truthful_error {fl : Flags} (hg : fl.readyGuarded = true) {totals : List Nat} {s : St}
+    (h : Reachable fl totals s) (j : Nat) (r : JS) (hp : (s.jobs j).pc = .finished r) :
+    r = .error ↔ ((s.jobs j).marker = false ∧
+      (((s.jobs j).launches = 1 ∧ (s.jobs j).code ≠ 0) ∨ ((s.jobs j).launches = 0 ∧ (s.jobs j).failedDep = true))) :=
+  jlocal_error_iff ((reachable_invA hg h).loc j) hp
+
+/-- a job whose success marker existed is never launched.  Needs `readyGuarded`. -/
+theorem marker_never_launched {fl : Flags} (hg : fl.readyGuarded = true) {totals : List Nat} {s : St}
+    (h : Reachable fl totals s) (j : Nat) (hm : (s.jobs j).marker = true) : (s.jobs j).launches = 0 :=
+  jlocal_marker ((reachable_invA hg h).loc j) hm
+
+/-- `unfinishedJobs` is exactly the number of submitted jobs whose coroutine exists and has not returned
+    (`pc` neither `none` nor `finished _`).  Needs `readyGuarded` and `resubmitRegisters`. -/
+theorem unfinished_counts {fl : Flags} (hg : fl.readyGuarded = true) (hf : fl.resubmitRegisters = true)
+    {totals : List Nat} {s : St} (h : Reachable fl totals s) :
+    s.unfinished = (((List.range s.n).filter (fun j => pcLive (s.jobs j).pc)).length : Int) := by
+  have := (reachable_invB hg hf h).count
+  unfold CountC at this
+  rw [this, actN_eq_filter]; simp
+
+/-- "the experiment exits", soundness: whenever the waiter callback runs — in a reachable state or in the middle of
+    a `submit` event (`MReach`) — and completes `experiment.wait()` (returned or raised), every job scheduled so
+    far has returned; it raises iff `failedJobs` is non-empty; otherwise it goes back to sleep.
+    Needs `readyGuarded` and `resubmitRegisters`. -/
+theorem waiter_returns_only_when_all_final {fl : Flags} (hg : fl.readyGuarded = true)
+    (hf : fl.resubmitRegisters = true) {totals : List Nat} {s : St} (h : MReach fl totals s) :
+    (s.waiterRun.waiter = .sleeping ∧ s.unfinished ≠ 0) ∨
+    (AllFinal s ∧ (s.waiterRun.waiter = .raised ↔ s.failed ≠ []) ∧ (s.waiterRun.waiter = .returned ↔ s.failed = [])) := by
+  obtain ⟨_, c, hc0, hc⟩ := micro_count hg hf h
+  rcases waiterRun_cases s with ⟨hu, hw⟩ | ⟨hu, hw⟩
+  · right
+    unfold CountC at hc
+    have : actN s = 0 := by omega
+    refine ⟨(actN_zero_iff s).1 this, ?_, ?_⟩ <;> rw [hw] <;> cases s.failed <;> simp
+  · exact Or.inl ⟨hw, hu⟩
+
+/-- "the experiment exits", completeness at event granularity: in a reachable state the waiter callback completes
+    `wait()` iff every scheduled job has returned.  Needs `readyGuarded` and `resubmitRegisters`. -/
+theorem waiter_returns_iff {fl : Flags} (hg : fl.readyGuarded = true) (hf : fl.resubmitRegisters = true)
+    {totals : List Nat} {s : St} (h : Reachable fl totals s) :
+    (s.waiterRun.waiter = .returned ∨ s.waiterRun.waiter = .raised) ↔ AllFinal s := by
+  have hc := (reachable_invB hg hf h).count
+  unfold CountC at hc
+  rw [← actN_zero_iff]
+  rcases waiterRun_cases s with ⟨hu, hw⟩ | ⟨hu, hw⟩
+  · constructor
+    · intro _; omega
+    · intro _; rw [hw]; cases s.failed <;> simp
+  · constructor
+    · intro hx; rw [hw] at hx; rcases hx with hx | hx <;> cases hx
+    · intro hx; omega
+
+/-! Hypotheses are satisfiable: a concrete reachable state (flags all true) with a job that returned DONE after one
+    launch, one that returned ERROR because its dependency failed (never launched), and a waiter that raised. -/
+section examples
+
+def exEvs : List Ev :=
+  [.submit 10 [] 1 false, .submit 11 [.job 0] 0 false, .wait, .step, .step, .step,
+   .deliver 0, .step, .deliver 0, .step, .deliver 0, .step, .deliver 0, .step, .step, .step,
+   .deliver 0, .step, .step, .deliver 0, .step, .step]
+
+/-- the example state is reachable (events well-formed) … -/
+example : Reachable flOK [] (runEvs flOK [] exEvs) := reachable_runEvs exEvs (by decide)
+
+/-- … job 0 ran once and failed, job 1 was never launched and ended ERROR because its dependency failed,
+    the waiter raised, nothing is unfinished. -/
+example : ((runEvs flOK [] exEvs).jobs 0).pc = .finished .error
+    ∧ ((runEvs flOK [] exEvs).jobs 0).launches = 1
+    ∧ ((runEvs flOK [] exEvs).jobs 1).pc = .finished .error
+    ∧ ((runEvs flOK [] exEvs).jobs 1).launches = 0
+    ∧ ((runEvs flOK [] exEvs).jobs 1).failedDep = true
+    ∧ (runEvs flOK [] exEvs).waiter = .raised
+    ∧ (runEvs flOK [] exEvs).unfinished = 0 := by decide
+
+/-- a micro-state inside a `submit` event in which the waiter callback runs. -/
+example : MReach flOK [] (St.steps flOK (submitPre (runEvs flOK [] [.wait]) 10 [] 0 false) 1) :=
+  .inSubmit 10 [] 0 false 1 (reachable_runEvs [.wait] (by decide)) (by intro o ho; cases ho) (by decide)
+
+end examples
+
 end XpmVerif.C06
